@@ -448,15 +448,16 @@ PLANS = {
 }
 
 ENGINES = [
-    {"name": "eval", "path": "spec/ (Values, Operators, Semantics, Optimizer, Layout, Machine, Fetchers, MCEval, MCFold, MCTry, MCFetch, MCEvents, MCReorder, JudgeEval, JudgeTry, JudgeEvents, JudgeReorder) + harness/ (fam_eval, fam_try, fam_fetch, fam_events, fam_reorder)",
+    {"name": "eval", "path": "spec/ (Values, Operators, Semantics, Optimizer, Layout, Machine, Fetchers, MCEval, MCFold, MCTry, MCFetch, MCEvents, MCReorder, JudgeEval, JudgeTry, JudgeEvents, JudgeReorder, TraceSteps) + harness/ (fam_eval, fam_try, fam_fetch, fam_events, fam_reorder)",
      "serves_properties": ["C01", "C02", "C03", "C04", "C05", "C10", "C12", "C16"],
      "kind_free_text": "TLA+ specification of optimizer, layout and the Eval/TryEval stack machines; TLC bounded model checking; "
-                       "TLC trace validation of observations recorded by the Go harness from the real code"},
+                       "TLC trace validation of observations recorded by the Go harness from the real code, incl. step-level replay of the "
+                       "engine's Debug stream against the machines' next-state relation (TraceSteps)"},
 ]
 ENGINES.append({"name": "capacity", "path": "spec/Capacity.tla, MCCap.tla, JudgeCap.tla + harness/fam_cap.go",
                 "serves_properties": ["C09"],
                 "kind_free_text": "scaled-down limits model-checked; real limits judged by closed forms"})
-ENGINES.append({"name": "frontend", "path": "spec/Lexer.tla, Formatter.tla, Parser.tla, MCLayout.tla, MCParse.tla, JudgeLayout.tla, JudgeTotal.tla + harness/fam_layout.go, fam_total.go",
+ENGINES.append({"name": "frontend", "path": "spec/Lexer.tla, Formatter.tla, Parser.tla, Dump.tla, MCLayout.tla, MCCursor.tla, MCParse.tla, MCInfix.tla, MCDump.tla, JudgeLayout.tla, JudgeTotal.tla, JudgeInfix.tla, JudgeDump.tla + harness/fam_layout.go, fam_total.go, fam_infix.go, fam_dump.go",
                 "serves_properties": ["C06", "C13", "C14", "C15"],
                 "kind_free_text": "lexer and formatter as character-level machines over model characters; exhaustive short texts; trace validation of the real lexer/formatter"})
 ENGINES.append({"name": "operators", "path": "spec/Operators.tla, Int64.tla, Encodings.tla, MCOps.tla, MCVer.tla, JudgeOps.tla + harness/fam_ops.go",
@@ -465,7 +466,7 @@ ENGINES.append({"name": "operators", "path": "spec/Operators.tla, Int64.tla, Enc
 ENGINES.append({"name": "generator", "path": "spec/Generator.tla, MCGen.tla, JudgeGen.tla + harness/fam_gen.go",
                 "serves_properties": ["C20"],
                 "kind_free_text": "GenerateRandomExpr as a consumer of a draw script; model-checked over scripts; real runs with recorded draws replayed through the model"})
-ENGINES.append({"name": "histories", "path": "spec/Registry.tla, MCReg.tla, JudgeReg.tla, CompileHistory.tla, Concurrent.tla + harness/fam_reg.go, fam_compile.go, fam_conc.go",
+ENGINES.append({"name": "histories", "path": "spec/Registry.tla, RegistryInd.tla (Apalache), MCReg.tla, JudgeReg.tla, CompileHistory.tla, JudgeCompile.tla, Concurrent.tla, ConcEvents.tla, ConcProgs.tla, JudgeConc.tla + harness/fam_reg.go, fam_compile.go, fam_conc.go",
                 "serves_properties": ["C07", "C08", "C11"],
                 "kind_free_text": "histories and schedules: registration histories, compile histories on shared configs, concurrent evaluations on a shared program (gated schedules + Go race detector)"})
 NOT_APPLICABLE = {}
